@@ -257,10 +257,21 @@ def gen_item(run_seed):
             base = 'fragment long{ %s }' % '\n'.join(atoms)
             bdesc = 'long-chain-%d' % n
         else:
-            nd = rng.choice([50, 1000, 4300, 4400, 9000])
-            steps = ' '.join('modify number of radical (c1, %s)' % ('7' * nd)
-                             for _ in range(rng.choice([1, 2, 3])))
-            base = 'rule big{ reactant r1{ C? labeled c1 } %s }' % steps
+            # just above the digit limit and far above it; the number may
+            # end its line (what follows is on the next, short, line)
+            nd = rng.choice([19, 20, 25, 50, 1000, 4300, 4400, 9000])
+            after = rng.choice([')', ')', '\n)', '\n\n)', ' \n )', '\n\t)'])
+            if rng.random() < 0.75:
+                steps = ' '.join('modify number of radical (c1, %s%s'
+                                 % ('7' * nd, after)
+                                 for _ in range(rng.choice([1, 2, 3])))
+                base = 'rule big{ reactant r1{ C? labeled c1 } %s%s' % (
+                    steps, rng.choice([' }', '\n}', '}']))
+            else:
+                base = 'rule big{ reactant r1{ C? labeled c1 } constraints{ ' \
+                    'r1.formula is C%s%s}' % ('7' * nd, rng.choice(
+                        [' ', '\n', '\n\n ', '\nH2 '])) + \
+                    ' increase number of radical (c1) }'
             bdesc = 'huge-number-%d' % nd
         return {'id': 'm%d' % run_seed, 'text': base, 'base': bdesc,
                 'faults': [{'kind': 'size:' + bdesc.rsplit('-', 1)[0]}]}
